@@ -155,6 +155,8 @@ def build_program(rng, n, edges, renamed=(), const_alias=False):
             kinds.append("enum")
         elif mine and all(p in ("alias-target", "alias-vec") for _, _, p in mine):
             kinds.append("alias")
+        elif not mine and rng.random() < 0.4:
+            kinds.append("alias-leaf")      # an alias of a primitive: referred to, refers to nothing
         else:
             kinds.append("struct")
     items = []
@@ -164,7 +166,9 @@ def build_program(rng, n, edges, renamed=(), const_alias=False):
         attrs = list(ts)
         if i in renamed:
             attrs.append(m_list("serde", [m_nv("rename", lit_s("R%d" % i))]))
-        if kinds[i] == "alias":
+        if kinds[i] == "alias-leaf":
+            items.append({"kind": "alias", "attrs": attrs, "ident": names[i], "generics": [], "ty": t_path(rng.choice(["String", "u32"]))})
+        elif kinds[i] == "alias":
             for extra in mine[1:]:
                 edges.remove(extra)          # an alias has one target: drop the other drawn edges
             _, j, p = mine[0]
